@@ -99,6 +99,7 @@ type node struct {
 	last    map[uint64]int64 // last scraped kept-sample count per target
 	linger  map[uint64][2]int64 // removed targets: [series, rounds left]
 	readyIn int              // cycles until the pod is ready
+	gen     int              // creation counter: tells a re-created pod from its predecessor
 	// faults armed for the current cycle
 	dropPost, loseAck     bool
 	failStatus, failRT    int // cycles left
@@ -286,6 +287,8 @@ type World struct {
 	posts   map[string]int
 	allSync bool
 	Log     []string
+	// Scraped[shard id][target id] = requests that shard's proxy really made to the target (counted at the farm)
+	Scraped map[string]map[int]int
 }
 
 type gate struct {
@@ -417,11 +420,12 @@ func (w *World) addNode(readyDelay int) error {
 		_ = os.RemoveAll(dir)
 	}
 	_ = os.MkdirAll(dir, 0755)
-	nd := &node{id: fmt.Sprintf("shard-%d", ord), dir: dir, w: w, last: map[uint64]int64{}, linger: map[uint64][2]int64{}, readyIn: readyDelay}
+	nd := &node{id: fmt.Sprintf("shard-%d", ord), gen: w.created, dir: dir, w: w, last: map[uint64]int64{}, linger: map[uint64][2]int64{}, readyIn: readyDelay}
 	if err := nd.start(); err != nil {
 		return fmt.Errorf("sidecar %s does not start: %w", nd.id, err)
 	}
 	w.nodes = append(w.nodes, nd)
+	delete(w.Scraped, nd.id)
 	w.created++
 	return nil
 }
@@ -445,7 +449,7 @@ func idleDur(s string) time.Duration {
 // NewWorld builds the world and starts the coordinator (not yet released for its first cycle).
 func NewWorld(spec Spec, root string, rseed int64) (*World, error) {
 	rand.Seed(rseed)
-	w := &World{Spec: spec, root: root, farm: newFarm(), active: map[uint64]*discovery.SDTargets{}, ex: map[uint64]*target.ScrapeStatus{}, posts: map[string]int{}}
+	w := &World{Spec: spec, root: root, farm: newFarm(), active: map[uint64]*discovery.SDTargets{}, ex: map[uint64]*target.ScrapeStatus{}, posts: map[string]int{}, Scraped: map[string]map[int]int{}}
 	for _, t := range spec.Targets {
 		w.setTarget(t)
 	}
@@ -562,21 +566,27 @@ func (w *World) Cycle() CycleObs {
 
 // ScrapeRound lets the given shards' Prometheus scrape once; returns farm hits per target id.
 func (w *World) ScrapeRound(which []int) map[int]int {
-	w.farm.mu.Lock()
-	w.farm.hits = map[int]int{}
-	w.farm.mu.Unlock()
+	total := map[int]int{}
 	for _, i := range which {
-		if i < len(w.nodes) {
-			w.nodes[i].scrapeRound()
+		if i >= len(w.nodes) {
+			continue
 		}
+		w.farm.mu.Lock()
+		w.farm.hits = map[int]int{}
+		w.farm.mu.Unlock()
+		w.nodes[i].scrapeRound()
+		w.farm.mu.Lock()
+		for k, v := range w.farm.hits {
+			total[k] += v
+			// the harness' own count of real scrapes per (shard, target), independent of what sidecars report
+			if w.Scraped[w.nodes[i].id] == nil {
+				w.Scraped[w.nodes[i].id] = map[int]int{}
+			}
+			w.Scraped[w.nodes[i].id][k] += v
+		}
+		w.farm.mu.Unlock()
 	}
-	w.farm.mu.Lock()
-	defer w.farm.mu.Unlock()
-	out := map[int]int{}
-	for k, v := range w.farm.hits {
-		out[k] = v
-	}
-	return out
+	return total
 }
 
 // AllShards lists the indexes of all current shards.
@@ -697,6 +707,22 @@ func (w *World) Grow(id, kept int) {
 // AddTarget / RemoveTarget change discovery.
 func (w *World) AddTarget(t TargetSpec) { w.setTarget(t) }
 func (w *World) RemoveTarget(id int)    { w.removeTarget(id) }
+
+// ScrapedBy returns the harness-counted scrapes of a target by the shard at position i (0 if none).
+func (w *World) ScrapedBy(i, id int) int {
+	if i >= len(w.nodes) {
+		return 0
+	}
+	return w.Scraped[w.nodes[i].id][id]
+}
+
+// Gen identifies the pod currently at position i.
+func (w *World) Gen(i int) int {
+	if i >= len(w.nodes) {
+		return -1
+	}
+	return w.nodes[i].gen
+}
 
 // NumShards returns the current number of shards.
 func (w *World) NumShards() int { return len(w.nodes) }
